@@ -36,7 +36,7 @@ META = {
                   "is not demanded (HDF5 groups iterate by name). Remote qp.data.load is out of scope (offline). Re-assigning an existing attribute raises in "
                   "this tree (h5py 'name already exists'); that is recorded as a rejection, and atomicity (old value intact) is checked instead.",
     "shards": {"quick": 4, "thorough": 8},
-    "budget_s": {"quick": 40, "thorough": 200},
+    "budget_s": {"quick": 40, "thorough": 170},
     "min_evals": {"quick": 1500, "thorough": 20000},
     "min_nontrivial": {"quick": 100, "thorough": 1000},
     "deciding": ["c64.value", "c64.view", "c64.info", "c64.history"],
@@ -80,7 +80,7 @@ def run(ctx):
     H = Harness(ctx, qp, V, work)
     sup = sorted(c.__name__ for c in qp.data.DatasetOperator.supported_ops())
     H.sup = sup
-    N = ctx.n(480, 40000)
+    N = ctx.n(420, 40000)
     try:
         for j in range(N):
             i = j * ctx.nshards + ctx.shard  # global case index (replayable)
@@ -100,6 +100,10 @@ def run(ctx):
                 pass
             except Exception as e:  # noqa: BLE001 - harness error: never a silent skip
                 import traceback
+                if H.broken:  # an attribute of this case was already reported as unreadable; Dataset.write()/identifiers then re-raise the same error
+                    ctx.count("cases_cut_short_after_reported_read_failure")
+                    H.end()
+                    continue
                 ctx.inconclusive_case(f"case {i}: harness error {type(e).__name__}: {e} @ {traceback.format_exc()[-500:]} trace={H.trace[-4:]}")
             H.end()
         if ctx.shard == 0:
@@ -243,7 +247,8 @@ class Harness:
                 return False
             if kind in ("operator", "measurement", "tape") or self.contains_pytree(entry.value):
                 top = cname if kind in ("operator", "measurement", "tape") else "nested"
-                if kind == "operator" and cname in self.sup:
+                refusal = isinstance(e, TypeError) and "Could not serialize metadata object" in str(e)  # the codec's own, explicit "unsupported"
+                if kind == "operator" and cname in self.sup and not refusal:
                     self.violate("c64.value", f"roundtrip:pytree:write-raises:{cname}", f"{where}: storing {V._short(entry.value)} raised {msg}", {"attr": name})
                 else:
                     ctx.reject(f"pytree-unsupported:{top}:{type(e).__name__}")
@@ -369,6 +374,8 @@ class Harness:
         try:
             dn, idents = ds.data_name, dict(ds.identifiers)
         except Exception as ex:  # noqa: BLE001
+            if any(k in self.broken for k in model.identifiers):
+                return  # consequence of an attribute already reported as unreadable
             self.violate("c64.ident", f"ident:read-raises:{type(ex).__name__}", f"{where}: data_name/identifiers raised {type(ex).__name__}: {ex}")
             return
         if dn != model.data_name:
@@ -689,7 +696,6 @@ class Harness:
             self.violate("c64.history", f"history:delete:raises:{type(e).__name__}", f"del {label}.{name} raised {type(e).__name__}: {e}")
             return
         del model.attrs[name]
-        self.broken.discard(name)
         self.assign(ds, model, name, entry, real, f"replace on {label}")
         self.check_view(ds, model, f"in-memory {label} after replace {name}")
 
@@ -709,7 +715,6 @@ class Harness:
             self.check_view(ds, model, f"in-memory {label} after refused re-assignment of {name}")
             return
         model.attrs[name] = self.V.Entry(m)
-        self.broken.discard(name)
         try:
             model.attrs[name].py_type = ds.attr_info[name].py_type
         except Exception:  # noqa: BLE001
@@ -1032,7 +1037,6 @@ class Harness:
                     try:
                         delattr(v, name)
                         del model.attrs[name]
-                        self.broken.discard(name)
                     except Exception as e:  # noqa: BLE001
                         self.violate("c64.history", f"history:delete:raises:{type(e).__name__}", f"del through 'a' view raised {type(e).__name__}: {e}")
                 else:
